@@ -313,6 +313,7 @@ type Event struct {
 	Kind string // err (checker diagnostic), cerr (generator internal error), panic, fault (IR typing), conv
 	Msg  string
 	Pos  token.Pos
+	Data []Val
 }
 
 // ---------- interpreter ----------
@@ -349,8 +350,8 @@ func NewInterp(L *Loaded) *Interp {
 	return &Interp{L: L, Models: map[string]ModelFn{}, MaxDepth: 6, pkgVars: map[types.Object]*Val{}}
 }
 
-func (in *Interp) event(kind, msg string, pos token.Pos) {
-	in.Events = append(in.Events, Event{kind, msg, pos})
+func (in *Interp) event(kind, msg string, pos token.Pos, data ...Val) {
+	in.Events = append(in.Events, Event{kind, msg, pos, data})
 }
 
 func (in *Interp) decide(why string) bool {
@@ -1511,7 +1512,7 @@ func (in *Interp) evalCall(pkg *packages.Package, env *Env, call *ast.CallExpr) 
 	}
 	// llir builder
 	if fn.Pkg() != nil && strings.HasPrefix(fn.Pkg().Path(), "github.com/llir/llvm/ir") {
-		return in.builderCall(fn, call, args)
+		return in.builderCall(fn, call, recv, args)
 	}
 	// interface method on abstract generator type
 	if g, ok := recv.(*GenT); ok {
@@ -1590,7 +1591,7 @@ func tyClass(v Val) string {
 }
 
 // builderCall models the llir API: result class, and typing faults LLVM would reject.
-func (in *Interp) builderCall(fn *types.Func, call *ast.CallExpr, args []Val) Val {
+func (in *Interp) builderCall(fn *types.Func, call *ast.CallExpr, recv Val, args []Val) Val {
 	name := fn.Name()
 	pos := call.Pos()
 	intLike := func(c string) bool { return c == "i1" || c == "i8" || c == "i32" || c == "i64" || c == "int-const" }
@@ -1735,6 +1736,7 @@ func (in *Interp) builderCall(fn *types.Func, call *ast.CallExpr, args []Val) Va
 			if o, ok := a.(*Obj); ok {
 				x := asIR(o.get("X"))
 				as = append(as, x)
+				in.event("phi-incoming", "", pos, o.get("X"), o.get("Pred"))
 				if cl == "?" || cl == "int-const" {
 					cl = x.Class
 				} else if x.Class != "?" && x.Class != "int-const" && x.Class != cl {
@@ -1746,6 +1748,9 @@ func (in *Interp) builderCall(fn *types.Func, call *ast.CallExpr, args []Val) Va
 	case "NewIncoming":
 		o := newObj("incoming")
 		o.set("X", args[0])
+		if len(args) > 1 {
+			o.set("Pred", args[1])
+		}
 		return o
 	case "NewLoad":
 		cl := tyClass(args[0])
@@ -1767,7 +1772,10 @@ func (in *Interp) builderCall(fn *types.Func, call *ast.CallExpr, args []Val) Va
 		for i, a := range args {
 			o.set(fmt.Sprint("a", i), a)
 		}
-		in.event("term:"+name, "", pos)
+		in.event("term:"+name, "", pos, append([]Val{recv}, args...)...)
+		if b, ok := recv.(*Obj); ok {
+			b.set("Term", o)
+		}
 		return o
 	case "NewInt":
 		return &IRVal{Op: "const", Class: "int-const"}
